@@ -17,6 +17,7 @@ import GruleModel.Snapshot
 import GruleModel.Properties.TableTie
 import GruleModel.Properties.SyntaxTie
 import GruleModel.Proofs.ParseDoc
+import GruleModel.Proofs.LexFacts
 namespace Grule.C05
 open Grule Grule.Expected Grule.Syntax
 
@@ -255,6 +256,11 @@ theorem C05_three_operands (o1 o2 : BinOp) (a b c : Atom) :
     (prec o1 < prec o2 → ParseGroup.WG (.bin o1 (.atom a) (.bin o2 (.atom b) (.atom c)))) :=
   ⟨ParseGroup.WG_left o1 o2 a b c, ParseGroup.WG_right o1 o2 a b c⟩
 
+/-- whitespace in front of a text produces no token (`SPACE -> skip`, over whole runs; `Proofs/LexFacts`); whitespace and
+    comments *between* tokens are validated by the correspondence on re-rendered texts -/
+theorem C05_leading_whitespace (ws cs : List Char) (h : ∀ c ∈ ws, isWs c = true) (hcs : ∀ c, cs.head? = some c → isWs c = false) :
+    lex (ws ++ cs) = lex cs := LexFacts.lex_leading_ws ws cs h hcs
+
 #print axioms C05_int_arith
 #print axioms C05_int_add_exact
 #print axioms C05_int_mul_exact
@@ -274,6 +280,7 @@ theorem C05_three_operands (o1 o2 : BinOp) (a b c : Atom) :
 #print axioms C05_keyword_case
 #print axioms C05_precedence_tied
 #print axioms C05_parse_print
+#print axioms C05_leading_whitespace
 #print axioms C05_three_operands
 #print axioms Grule.ParseGroup.parse_roundtrip
 #print axioms Grule.ParseDoc.unary_ok
